@@ -26,7 +26,7 @@ ALLINV = ["C02", "C03", "C06", "C10", "C11"]
 def _spec_hash():
     h = hashlib.sha1()
     for f in sorted(os.listdir(V.SPEC)):
-        if f.endswith(".tla"):
+        if f.endswith(".tla") and "_TTrace_" not in f:
             h.update(open(os.path.join(V.SPEC, f), "rb").read())
     return h.hexdigest()[:12]
 
@@ -130,23 +130,29 @@ def export(tier, seed, verdict):
         cfgp = os.path.join(cdir, "mcrule.cfg")
         V.write_cfg(cfgp, open(os.path.join(V.SPEC, "MCRule.cfg")).read().replace("YearStep = 7", "YearStep = %d" % (1 if tier == "thorough" else 29)))
         return V.tlc("MCRule", cfgp, env={"ZONES": zf}, workers=6, timeout=6 * 3600, heap="8g", tag="mcrule")
-    with cf.ThreadPoolExecutor(max_workers=nsh + 3) as ex:
+    def posixlaws():
+        # the rule-evaluation operators of PosixTZ against first principles (every date form x the 14 year shapes)
+        return V.tlc("MCPosix", "MCPosix.cfg", workers=2, timeout=3600, heap="2g", tag="mcposix")
+    with cf.ThreadPoolExecutor(max_workers=nsh + 4) as ex:
         fs = [ex.submit(one, sh) for sh in range(nsh)]
         fsm = ex.submit(small)
         fim = ex.submit(impl)
         fru = ex.submit(rule)
+        fpo = ex.submit(posixlaws)
         rs = [f.result() for f in fs]
         rsm = fsm.result()
         rim = fim.result()
         rru = fru.result()
+        rpo = fpo.result()
     zones = []
     st = {"states": 0, "transitions": 0, "cached": False, "palettes": palettes, "grid": grid, "max_transitions": maxtrans,
           "invariants_checked_on_spec": ALLINV + ["LoadsAllWellFormed", "ImplBreak", "ImplMake", "ImplTrans (ZoneImpl refines Zone for every hint value)",
-                                        "MCRule: BreakRefines, MakeRefines (403-year table + 400-year shift refine Zone on real-range DST zones, intermediates fit int64)"],
+                                        "MCRule: BreakRefines, MakeRefines (403-year table + 400-year shift refine Zone on real-range DST zones, intermediates fit int64)",
+                                        "MCPosix: MLaw, JLaw, NLaw, InstantLaw (rule evaluation against first principles)"],
           "spec_violation": None}
     st["zoneimpl_refinement_states"] = rim.distinct
     st["rule_table_refinement_states"] = rru.distinct
-    for r in rs + [rsm, rim, rru]:
+    for r in rs + [rsm, rim, rru, rpo]:
         st["states"] += r.distinct
         st["transitions"] += r.generated
         if r.verdict_violation:
